@@ -1,5 +1,5 @@
 (* C10 - Each request reaches exactly the authenticator method for its command. *)
-From Ctap Require Import Base Schema Wire Typed Procs Inst Tables ProcTables Finite FramingP FnShapes Shapes ObShapeDispatch Deps ObDeps.
+From Ctap Require Import Base Schema Wire Typed Procs Inst Tables ProcTables Finite FramingP FnShapes Shapes ObShapeDispatch Deps ObDeps ObShapeRequest ObShapeU2fParse.
 Local Open Scope string_scope.
 Local Open Scope Z_scope.
 
@@ -93,6 +93,12 @@ Proof. exact generated_shapes_dispatch. Qed.
 Theorem c10_modelled_dependencies_pinned : deps_hold lock_versions cargo_deps = true.
 Proof. exact generated_deps. Qed.
 
+(* further hand-modelled functions this property rests on *)
+Theorem c10_modelled_functions_unchanged_request : shapes_hold fn_shapes shapes_request = true.
+Proof. exact generated_shapes_request. Qed.
+Theorem c10_modelled_functions_unchanged_u2f_parse : shapes_hold fn_shapes shapes_u2f_parse = true.
+Proof. exact generated_shapes_u2f_parse. Qed.
+
 Eval vm_compute in "ASSUMPTIONS c10_ctap2". Print Assumptions c10_ctap2.
 Eval vm_compute in "ASSUMPTIONS c10_ctap1". Print Assumptions c10_ctap1.
 Eval vm_compute in "ASSUMPTIONS c10_exactly_one_call". Print Assumptions c10_exactly_one_call.
@@ -100,3 +106,5 @@ Eval vm_compute in "ASSUMPTIONS c10_get_info_infallible". Print Assumptions c10_
 Eval vm_compute in "ASSUMPTIONS c10_generated_tables". Print Assumptions c10_generated_tables.
 Eval vm_compute in "ASSUMPTIONS c10_modelled_functions_unchanged_dispatch". Print Assumptions c10_modelled_functions_unchanged_dispatch.
 Eval vm_compute in "ASSUMPTIONS c10_modelled_dependencies_pinned". Print Assumptions c10_modelled_dependencies_pinned.
+Eval vm_compute in "ASSUMPTIONS c10_modelled_functions_unchanged_request". Print Assumptions c10_modelled_functions_unchanged_request.
+Eval vm_compute in "ASSUMPTIONS c10_modelled_functions_unchanged_u2f_parse". Print Assumptions c10_modelled_functions_unchanged_u2f_parse.
